@@ -31,6 +31,7 @@ func init() {
 			"options with 1-3 names drawn from a small alphabet (some *Ptr declarations deliberately store into the same variable as an earlier one) (one-letter, longer, upper case, with dash/underscore/digit) so that collisions between any two names of any two options, in either order, are frequent; " +
 			"argument names drawn from valid and invalid strings without blanks (lower case, digit first, OPTIONS, symbols, brackets, '...', empty). Oracle: the call panics iff an option name was already taken / the argument name is not " +
 			"^[A-Z][A-Z0-9_]*$, is OPTIONS, or is a duplicate; for sequences without conflict every listed name (one letter -> -x, longer -> --xx) given on a command line sets exactly its own variable and no other. " +
+			"Family P (one case in sixteen): a conflicting declaration inside a sub-command's initializer that the program does not recover, reached through ten command lines (the sub-command addressed, its help, the parent's help or usage) under the three policies, must arrive at the caller of Run as a panic. " +
 			"Name lists repeating a name within one declaration are generated but not judged. non-trivial = sequence of >=2 declarations; distinct by the sequence.",
 		Assumptions: []string{"a sequence goes on after a recovered panic; what a rejected option declaration leaves behind (the names it listed before the colliding one) is unspecified and not judged, but names taken by accepted declarations must stay taken"},
 		Cases:       tiered(60000, 2000000),
